@@ -751,3 +751,28 @@ func FlateCorpus(rng *rand.Rand, n int, maxPlain int) []Stream {
 	}
 	return out
 }
+
+// Text is word-like data over a random vocabulary with a skewed choice of
+// words: it compresses into dynamic-code blocks whose code tables differ from
+// one call to the next.
+func Text(rng *rand.Rand, n int) []byte {
+	alpha := []string{"abcdefghijklmnopqrstuvwxyz", "ABCDEFGHIJKLMNOPQRSTUVWXYZ0123456789", "etaoin shrdlu", "01", "#[]{}<>|&^~@$%QZXJ", "aeiou\n\t ,."}[rng.Intn(6)]
+	words := make([]string, 8+rng.Intn(60))
+	for i := range words {
+		w := make([]byte, 1+rng.Intn(9))
+		for j := range w {
+			w[j] = alpha[rng.Intn(len(alpha))]
+		}
+		words[i] = string(w)
+	}
+	b := make([]byte, 0, n+16)
+	for len(b) < n {
+		i := rng.Intn(len(words))
+		if rng.Intn(2) == 0 {
+			i = rng.Intn(1 + i/4)
+		}
+		b = append(b, words[i]...)
+		b = append(b, " ,.\n"[rng.Intn(4)])
+	}
+	return b[:n]
+}
